@@ -70,7 +70,7 @@ CLAIMS = {
    technique="Coq proof of join covering both inputs + model/implementation join correspondence + membership oracle"),
  "C14": dict(
    category="proof",
-   text="Coq theorems over a byte-level model of the parsers: any record of fixed-width fields round-trips in either byte order; a table of any number of records at any offset and stride is read back; for every file holding an encoded ELF header and program/section/symbol tables (both classes, both byte orders, any counts and positions) the parser reports exactly the encoded records in canonical field order; string-table names; address->file-offset queries of Elf/PE/MachO follow the file's mapping; Intel-HEX and S-record lines decode to what they encode and are rejected when the checksum byte is wrong; HEX address composition follows the most recent extended-address record. Tie: regenerated obligations (layouts of the live ELF classes = the model's gABI tables), the model's parser run by vm_compute on the same synthesised ELF files as Elf(), PE/Mach-O queries and HEX/SREC lines model-vs-implementation, and independent struct-based readers (validated against readelf/objdump) vs amoco on synthesised ELF/PE/Mach-O images, the shipped samples and field-level variations. Twelve genuine defects found by this check were repaired.",
+   text="Coq theorems over a byte-level model of the parsers: any record of fixed-width fields round-trips in either byte order; a table of any number of records at any offset and stride is read back; for every file holding an encoded ELF header and program/section/symbol tables (both classes, both byte orders, any counts and positions) the parser reports exactly the encoded records in canonical field order; string-table names; address->file-offset queries of Elf/PE/MachO follow the file's mapping; Intel-HEX and S-record lines decode to what they encode and are rejected when the checksum byte is wrong; HEX address composition follows the most recent extended-address record. Tie: regenerated obligations (layouts of the live ELF classes = the model's gABI tables), the model's parser run by vm_compute on the same synthesised ELF files as Elf(), PE/Mach-O queries and HEX/SREC lines model-vs-implementation, and independent struct-based readers (validated against readelf/objdump) vs amoco on synthesised ELF/PE/Mach-O images, the shipped samples and field-level variations. Eleven genuine defects found by this check were repaired.",
    design_ref="DESIGN.md §4 C14",
    note="Partial for PE/Mach-O beyond headers, section/segment tables, symbols and address queries (imports, TLS, dyld info, relocations are not modelled). Trusted: Coq kernel; harness/elfgen.py and fmtgen.py (reference readers/synthesisers).",
    technique="Coq proofs of codec/parser round trips + regenerated layout obligations + model correspondence + differential testing against independent readers"),
